@@ -108,6 +108,8 @@ def judge(fails, where, a0, rest, target, out):
             sig = "C15:raises-%s:%s" % (name, feat)          # target/0 again, smallest rest time not 0
         elif name == "ZeroDivisionError" and To == 1:
             sig = "C15:derivative-factor-ZeroDivision"      # no zero activity anywhere: df(x) == 0
+        elif To != 0 and not any(x > 0 and T > 0 and To / T > 1000 for _, _, _, T, x in a0):
+            sig = "C15:raises-%s:rest-times-without-0:no-short-lived-product" % name   # not the recorded mechanism
         else:
             sig = "C15:raises-%s:%s" % (name, feat)
         fails.add(sig, "decay_time(%r) raises %s: %s (only RuntimeError is allowed); rest_times=%r"
@@ -226,7 +228,7 @@ def main(argv):
     # zero and negative activities out of the 2n branch (Te, Lu) and the rest-time lists [1], [2] on them
     for formula, mass, envp, exposure, lists in (("Te", 1.0, (1e4, 0.0, 0.0), 1.0, [[0, 1, 24, 360], [1], [2]]),
                                                  ("Lu", 4.9e-3, (1e4, 0.0, 0.0), 0.01, [[0, 1, 24, 360]]),
-                                                 ("NaCl", 1.0, (1e8, 0.0, 0.0), 10.0, [[0, 1, 24, 360], [2], [0.5]])):
+                                                 ("NaCl", 1.0, (1e8, 0.0, 0.0), 10.0, [[0, 1, 24, 360], [2], [0.5], [1], [24], [7.5, 30]])):
         c, m = sample_cases(rng, fails, formula, mass, envp, exposure, lists, [0.3])
         cases += c
         meta += m
